@@ -162,3 +162,45 @@ func hostileMessages(rec *fw.Rec) {
 	}
 	rec.Bucket("messages_with_variable_lookalikes_survived")
 }
+
+// concurrentPropsWriters: machines walked at the same time, without step properties (and
+// with empty ones), whose actions write into _.props.  Each execution has its own; a shared
+// map would be written concurrently, which the Go runtime answers by killing the process.
+func concurrentPropsWriters(rec *fw.Rec) {
+	spec := &core.Spec{Name: "props-writers", Nodes: map[string]*core.Node{
+		"start": {ActionSource: &core.ActionSource{Interpreter: "ecmascript", Source: `for (var i = 0; i < 50; i++) { _.props["k" + (i % 7)] = i; delete _.props["k" + ((i + 3) % 7)]; } var bs = _.bindings; bs.n = (bs.n || 0) + 1; return bs;`},
+			Branches: &core.Branches{Type: "bindings", Branches: []*core.Branch{{GuardSource: &core.ActionSource{Interpreter: "ecmascript", Source: `_.props.seen = true; return _.bindings;`}, Target: "done"}}}},
+		"done": {},
+	}}
+	if err := spec.Compile(context.Background(), nil, true); err != nil {
+		rec.Inconclusive("props writers: " + err.Error())
+		return
+	}
+	for _, kind := range []string{"nil", "empty"} {
+		desc := map[string]interface{}{"family": "8 goroutines walk machines whose actions write into _.props", "props": kind}
+		rec.LogCase(0, desc)
+		ok := guarded(rec, "C07:concurrent-props-writers", desc, 60*time.Second, func() {
+			done := make(chan struct{}, 8)
+			for g := 0; g < 8; g++ {
+				go func(g int) {
+					defer func() { done <- struct{}{} }()
+					for k := 0; k < 60; k++ {
+						var props core.StepProps
+						if kind == "empty" {
+							props = core.StepProps{}
+						}
+						spec.Walk(context.Background(), &core.State{NodeName: "start", Bs: match.Bindings{"g": float64(g)}}, nil, nil, props)
+					}
+				}(g)
+			}
+			for g := 0; g < 8; g++ {
+				<-done
+			}
+		})
+		if !ok {
+			return
+		}
+		rec.Eval(480)
+	}
+	rec.Bucket("concurrent_props_writers_survived")
+}
